@@ -12,6 +12,13 @@
 //!              follow-up idle that inserts another (n1, n2 in 1..=12, every position): the size
 //!              history of the idle queue must not matter (C13, C08).
 //!
+//! * `slot-wrap` — one slot reused k times (k up to 65535, the bound of C01 / C06) while a token of
+//!              its first occupant is outstanding: the old token never designates the newcomer.
+//!
+//! * `block-on-idle` — block_on with idles queued before it / from the future's poll / from a source
+//!              callback, with and without a source event in the same iteration: idles run after
+//!              the events of their iteration, in insertion order, once (C13 under block_on).
+//!
 //! These spaces are small and enumerated completely: (kind x size x handler variant).
 
 use std::cell::Cell;
@@ -483,6 +490,212 @@ pub fn idle_burst() -> Report {
     // keep one violation per clause/feature combination
     let mut seen = std::collections::HashSet::new();
     rep.violations.retain(|v| seen.insert(v.signature()));
+    rep.states = rep.executions;
+    rep.distinct_outcomes = outcomes.len() as u64;
+    rep.distinct_nontrivial = outcomes.len() as u64;
+    rep.violation_count = rep.violations.len() as u64;
+    rep.levels_completed = vec![0];
+    rep.wall_s = start.elapsed().as_secs_f64();
+    rep
+}
+
+
+/// `slot-wrap`: slot 1 is reused k times while the token of its first occupant is kept; after
+/// the k-th reuse the old token must still be dead: different key, every operation through it
+/// rejected, and the newcomer untouched. k runs over small values and the ones around the 16-bit
+/// generation counter's wrap (the properties allow fewer than 65536 reuses).
+pub fn slot_wrap() -> Report {
+    seqhooks::install();
+    crate::quiet_panics();
+    let start = Instant::now();
+    let mut rep = Report { driver: "slot-wrap".into(), exhaustive: true, ..Default::default() };
+    let mut outcomes = std::collections::HashSet::new();
+    for &k in &[1u32, 2, 3, 255, 256, 257, 32767, 32768, 65533, 65534, 65535] {
+        for in_dispatch_gap in [false, true] {
+            let snapshot = rep.violations.len();
+            let r = std::panic::catch_unwind(std::panic::AssertUnwindSafe(|| {
+                seqhooks::reset();
+                let mut el: EventLoop<'static, Vec<u32>> = EventLoop::try_new().unwrap();
+                let h: LoopHandle<'static, Vec<u32>> = el.handle();
+                let mut got: Vec<u32> = vec![];
+                // slot 0 stays occupied
+                let (_p0, s0) = make_ping().unwrap();
+                h.insert_source(s0, |_, _, got: &mut Vec<u32>| got.push(0)).unwrap();
+                // first occupant of slot 1
+                let (_pa, sa) = make_ping().unwrap();
+                let tok_a = h.insert_source(sa, |_, _, got: &mut Vec<u32>| got.push(1)).unwrap();
+                let key_a = calloop::verif::registration_key(&tok_a);
+                h.remove(tok_a);
+                for i in 0..k - 1 {
+                    let t = h
+                        .insert_source(Timer::from_duration(Duration::from_secs(3600)), |_, _, _: &mut Vec<u32>| TimeoutAction::Drop)
+                        .unwrap();
+                    h.remove(t);
+                    if in_dispatch_gap && (i % 8192 == 0) {
+                        el.dispatch(Some(Duration::ZERO), &mut got).unwrap();
+                    }
+                }
+                if in_dispatch_gap {
+                    el.dispatch(Some(Duration::ZERO), &mut got).unwrap();
+                }
+                // the k-th reuse: the newcomer
+                let (pb, sb) = make_ping().unwrap();
+                let tok_b = h.insert_source(sb, |_, _, got: &mut Vec<u32>| got.push(2)).unwrap();
+                let key_b = calloop::verif::registration_key(&tok_b);
+                let same_slot = calloop::verif::key_to_fields(key_a).0 == calloop::verif::key_to_fields(key_b).0;
+                let mut problems: Vec<String> = vec![];
+                if !same_slot {
+                    problems.push(format!("harness premise broken: newcomer is in slot {:?}, not in the reused one", calloop::verif::key_to_fields(key_b)));
+                }
+                if key_a == key_b {
+                    problems.push(format!("the newcomer got the very key {key_a:#x} of the slot's first occupant"));
+                }
+                if h.disable(&tok_a).is_ok() {
+                    problems.push("disable() through the dead token returned Ok".into());
+                }
+                if h.update(&tok_a).is_ok() {
+                    problems.push("update() through the dead token returned Ok".into());
+                }
+                if h.enable(&tok_a).is_ok() {
+                    problems.push("enable() through the dead token returned Ok".into());
+                }
+                h.remove(tok_a);
+                pb.ping();
+                el.dispatch(Some(Duration::ZERO), &mut got).unwrap();
+                if got != vec![2] {
+                    problems.push(format!("after the operations through the dead token the newcomer's ping gave callbacks {got:?}, expected [2]"));
+                }
+                rep.transitions += k as u64 + 4;
+                problems
+            }));
+            rep.executions += 1;
+            *rep.clause_counts.entry("slot-wrap".into()).or_insert(0) += 1;
+            match r {
+                Ok(problems) => {
+                    outcomes.insert((k, problems.len()));
+                    if !problems.is_empty() {
+                        rep.violations.push(viol(
+                            &["C01", "C06", "C20"],
+                            "dead-token-alive-after-reuse",
+                            &[("reuses", k.to_string())],
+                            format!("slot reused {k} times (dispatches in between: {in_dispatch_gap}): {}", problems.join("; ")),
+                        ));
+                    }
+                }
+                Err(p) => {
+                    let msg = p.downcast_ref::<String>().cloned().or_else(|| p.downcast_ref::<&str>().map(|s| s.to_string())).unwrap_or_else(|| "panic".into());
+                    rep.violations.truncate(snapshot);
+                    rep.violations.push(viol(&["C01", "C06"], "panic-in-dispatch", &[("reuses", k.to_string())], format!("slot reused {k} times: the loop panicked: {msg}")));
+                }
+            }
+        }
+    }
+    rep.states = rep.executions;
+    rep.distinct_outcomes = outcomes.len() as u64;
+    rep.distinct_nontrivial = rep.executions;
+    rep.violation_count = rep.violations.len() as u64;
+    rep.levels_completed = vec![0];
+    rep.wall_s = start.elapsed().as_secs_f64();
+    rep
+}
+
+
+/// `block-on-idle`: C13 under `block_on` (single thread; the future wakes itself from inside its
+/// first poll so that the iteration's wait returns). All 16 combinations of: an idle queued before
+/// block_on, an idle inserted by the future's first poll, a pinged source (whose callback may insert
+/// a third idle). Expected log of the first iteration: the source callback (if pinged), then the
+/// idles in insertion order; nothing twice; block_on returns the future's value.
+pub fn block_on_idle() -> Report {
+    seqhooks::install();
+    crate::quiet_panics();
+    let start = Instant::now();
+    let mut rep = Report { driver: "block-on-idle".into(), exhaustive: true, ..Default::default() };
+    let mut outcomes = std::collections::HashSet::new();
+    struct St {
+        log: Vec<&'static str>,
+        h: Option<LoopHandle<'static, St>>,
+    }
+    for mask in 0..16u32 {
+        let (idle_before, idle_in_poll, pinged, idle_in_cb) = (mask & 1 != 0, mask & 2 != 0, mask & 4 != 0, mask & 8 != 0);
+        if idle_in_cb && !pinged {
+            continue;
+        }
+        let r = std::panic::catch_unwind(std::panic::AssertUnwindSafe(|| {
+            seqhooks::reset();
+            let mut el: EventLoop<'static, St> = EventLoop::try_new().unwrap();
+            let h = el.handle();
+            let mut st = St { log: vec![], h: Some(h.clone()) };
+            let (ping, src) = make_ping().unwrap();
+            h.insert_source(src, move |_, _, st: &mut St| {
+                st.log.push("event");
+                if idle_in_cb {
+                    let _ = st.h.clone().unwrap().insert_idle(|st: &mut St| st.log.push("idle-from-callback"));
+                }
+            })
+            .unwrap();
+            let mut want: Vec<&'static str> = vec![];
+            if pinged {
+                ping.ping();
+                want.push("event");
+            }
+            if idle_before {
+                let _ = h.insert_idle(|st: &mut St| st.log.push("idle-before"));
+                want.push("idle-before");
+            }
+            if idle_in_poll {
+                want.push("idle-from-poll");
+            }
+            if idle_in_cb {
+                want.push("idle-from-callback");
+            }
+            want.push("iteration-end");
+            let h2 = h.clone();
+            let mut polls = 0u32;
+            let fut = std::future::poll_fn(move |cx: &mut std::task::Context<'_>| {
+                polls += 1;
+                if polls == 1 {
+                    if idle_in_poll {
+                        let _ = h2.insert_idle(|st: &mut St| st.log.push("idle-from-poll"));
+                    }
+                    cx.waker().wake_by_ref();
+                    std::task::Poll::Pending
+                } else {
+                    std::task::Poll::Ready(polls)
+                }
+            });
+            let mut iters = 0u32;
+            let sig = el.get_signal();
+            let out = el.block_on(fut, &mut st, |st: &mut St| {
+                iters += 1;
+                st.log.push("iteration-end");
+                if iters > 6 {
+                    sig.stop();
+                }
+            });
+            st.h.take();
+            (st.log, want, out.map_err(|e| format!("{e}")), iters)
+        }));
+        rep.executions += 1;
+        rep.transitions += 2;
+        *rep.clause_counts.entry("block-on-idle".into()).or_insert(0) += 1;
+        match r {
+            Ok((got, want, out, iters)) => {
+                outcomes.insert(got.clone());
+                if got != want || out != Ok(Some(2)) || iters != 1 {
+                    rep.violations.push(viol(
+                        &["C13", "C11"],
+                        "block-on-idle-order",
+                        &[("events_first", (got.first() == want.first()).to_string())],
+                        format!("block_on with idle_before={idle_before} idle_in_poll={idle_in_poll} pinged={pinged} idle_in_callback={idle_in_cb}: log {got:?}, expected {want:?}; result {out:?} after {iters} iteration(s)"),
+                    ));
+                }
+            }
+            Err(p) => {
+                let msg = p.downcast_ref::<String>().cloned().or_else(|| p.downcast_ref::<&str>().map(|s| s.to_string())).unwrap_or_else(|| "panic".into());
+                rep.violations.push(viol(&["C13", "C11"], "panic-in-dispatch", &[], format!("block_on scenario {mask}: the loop panicked: {msg}")));
+            }
+        }
+    }
     rep.states = rep.executions;
     rep.distinct_outcomes = outcomes.len() as u64;
     rep.distinct_nontrivial = outcomes.len() as u64;
